@@ -9,6 +9,7 @@ from lib.framework import Check
 P = ('O', ['i', 's', 'd'])
 Q = ('O', ['h', P])
 V3 = ('V', ['i', 's', P])
+VT = ('VZ', ['i', 's', ('O', ['i'])])
 TYPES = {
     'P': P,
     'Q': Q,
@@ -28,9 +29,15 @@ TYPES = {
     'SQ': ('U', Q),
     'TU': ('T', [('U', 'i'), ('U', 's')]),
     'PV': ('P', ('U', V3), 'i'),
+    # variants that can be valueless_by_exception() ('VZ': alternative K's constructor can throw), alone and as members
+    'VT': VT,
+    'TV': ('T', ['i', VT]),
+    'PVT': ('P', VT, 'i'),
+    'OV': ('O', [VT, 'i']),
+    'UV': ('U', VT),
 }
-TUPLE_OPERATORS_TYPES = ('P', 'Q', 'R', 'E', 'N')
-POINTER_TYPES = ('UP', 'SQ', 'TU', 'PV')
+TUPLE_OPERATORS_TYPES = ('P', 'Q', 'R', 'E', 'N', 'OV')
+POINTER_TYPES = ('UP', 'SQ', 'TU', 'PV', 'UV')
 
 def hx(s):
     return s.encode("latin-1").hex() if s else "-"
@@ -73,6 +80,8 @@ def count_values(sh, grid):
         return count_values(sh[1], grid) * count_values(sh[2], grid)
     if sh[0] == 'V':
         return sum(count_values(c, grid) for c in sh[1])
+    if sh[0] == 'VZ':
+        return 1 + sum(count_values(c, grid) for c in sh[1])
     return count_values(sh[1], grid)
 
 
@@ -85,8 +94,8 @@ def all_values(sh, grid):
         return [(sh[0], list(c)) for c in itertools.product(*[all_values(x, grid) for x in sh[1]])]
     if sh[0] == 'P':
         return [('P', a, b) for a in all_values(sh[1], grid) for b in all_values(sh[2], grid)]
-    if sh[0] == 'V':
-        return [('V', k, v) for k, alt in enumerate(sh[1]) for v in all_values(alt, grid)]
+    if sh[0] in ('V', 'VZ'):
+        return ([('Z',)] if sh[0] == 'VZ' else []) + [('V', k, v) for k, alt in enumerate(sh[1]) for v in all_values(alt, grid)]
     return [('U', v) for v in all_values(sh[1], grid)]
 
 
@@ -97,7 +106,9 @@ def random_value(sh, grid, rng):
         return (sh[0], [random_value(x, grid, rng) for x in sh[1]])
     if sh[0] == 'P':
         return ('P', random_value(sh[1], grid, rng), random_value(sh[2], grid, rng))
-    if sh[0] == 'V':
+    if sh[0] in ('V', 'VZ'):
+        if sh[0] == 'VZ' and rng.random() < 0.4:
+            return ('Z',)
         k = rng.randrange(len(sh[1]))
         return ('V', k, random_value(sh[1][k], grid, rng))
     return ('U', random_value(sh[1], grid, rng))
@@ -106,6 +117,8 @@ def random_value(sh, grid, rng):
 def leaf_paths(v, path=()):
     if v[0] == 'L':
         return [path]
+    if v[0] == 'Z':
+        return []
     if v[0] in ('T', 'O'):
         return [p for i, c in enumerate(v[1]) for p in leaf_paths(c, path + (i,))]
     if v[0] == 'P':
@@ -134,6 +147,8 @@ def tokens(v):
     """leaf tokens (without hash) of a value"""
     if v[0] == 'L':
         return [v[1] + v[2]]
+    if v[0] == 'Z':
+        return []
     if v[0] in ('T', 'O'):
         return [t for c in v[1] for t in tokens(c)]
     if v[0] == 'P':
@@ -198,8 +213,9 @@ class C16(Check):
                   "Smart pointers: equality in the model is pointee equality (address equality "
                   "implies it); ordering of pointers is not modelled. The variant index is not hashed by the code (variant<int,long>{1} and {1L} "
                   "collide by construction) - allowed by the property. The correspondence is bounded-exhaustive + sampled, not proved")
-    rule = ("values of 18 C++ types (5 tuple_operators structs incl. nested, empty and mixed-width ones; tuples, pairs, a variant, unique_ptr/"
-            "shared_ptr and tuples/pairs of them) over small grids of leaves (ints {-1,0,1,2^31-1}, strings {'',a,b,ab}, doubles {-0.0,0.0,1.5}, "
+    rule = ("values of 23 C++ types (6 tuple_operators structs incl. nested, empty and mixed-width ones; tuples, pairs, variants, unique_ptr/"
+            "shared_ptr and tuples/pairs of them; a variant with an alternative whose constructor throws, driven into valueless_by_exception(), "
+            "alone and as tuple / pair / tuple_operators member / pointee) over small grids of leaves (ints {-1,0,1,2^31-1}, strings {'',a,b,ab}, doubles {-0.0,0.0,1.5}, "
             "short/char/unsigned/long long/bool/float grids; larger grids in the thorough tier): ALL ordered pairs of P (and of Q in the thorough "
             "tier), for every type structured pairs (equal copy, -0.0 vs 0.0, one leaf changed, two components swapped) and random pairs, "
             "sampled/all triples for transitivity, unordered_set/map insert-a-subset-then-probe-the-grid cases; HISTORY cases for the tuple_operators "
@@ -237,6 +253,8 @@ class C16(Check):
             return "P(" + self.wire(v[1]) + "," + self.wire(v[2]) + ")"
         if v[0] == 'V':
             return "V%d(" % v[1] + self.wire(v[2]) + ")"
+        if v[0] == 'Z':
+            return "Z"
         return "U(" + self.wire(v[1]) + ")"
 
     # ---- generators ----
@@ -244,6 +262,10 @@ class C16(Check):
         """a value related to x: copy / one leaf changed / -0.0 <-> 0.0 / two components swapped / random"""
         k = rng.random()
         paths = leaf_paths(x)
+        if 'VZ' in repr(sh) and rng.random() < 0.3:
+            y = self.toggle_valueless(sh, x, grid, rng)
+            if y is not None:
+                return y
         if k < 0.15 or not paths:
             return x
         if k < 0.55:
@@ -263,6 +285,30 @@ class C16(Check):
                 comps[i], comps[j] = comps[j], comps[i]
                 return (x[0], comps) if x[0] != 'P' else ('P', comps[0], comps[1])
         return random_value(sh, grid, rng)
+
+    def toggle_valueless(self, sh, x, grid, rng):
+        """x with its (first) valueless-capable variant switched between valueless and holding a value"""
+        if is_leaf(sh):
+            return None
+        if sh[0] == 'VZ':
+            return random_value(('V', sh[1]), grid, rng) if x[0] == 'Z' else ('Z',)
+        if sh[0] in ('T', 'O'):
+            for i, c in enumerate(sh[1]):
+                y = self.toggle_valueless(c, x[1][i], grid, rng)
+                if y is not None:
+                    l = list(x[1]); l[i] = y
+                    return (x[0], l)
+            return None
+        if sh[0] == 'P':
+            y = self.toggle_valueless(sh[1], x[1], grid, rng)
+            if y is not None:
+                return ('P', y, x[2])
+            y = self.toggle_valueless(sh[2], x[2], grid, rng)
+            return None if y is None else ('P', x[1], y)
+        if sh[0] == 'U':
+            y = self.toggle_valueless(sh[1], x[1], grid, rng)
+            return None if y is None else ('U', y)
+        return None
 
     @staticmethod
     def leaf_at(v, path):
@@ -298,7 +344,7 @@ class C16(Check):
                 for y in qv:
                     yield "p Q %s %s" % (W(x), W(y)), "pair-exh-Q"
         # all ordered pairs of the small homogeneous types (swap sensitivity) and of the empty ones
-        for t in ('TI2', 'PI2', 'T0', 'E', 'T1'):
+        for t in ('TI2', 'PI2', 'T0', 'E', 'T1', 'VT'):
             vs = all_values(TYPES[t], grid)
             for x in vs:
                 for y in vs:
